@@ -551,7 +551,8 @@ WATCH = frozenset(
     ["open", "write", "writelines", "rename", "replace", "remove", "unlink", "fork_exec", "close", "print", "utime", "truncate", "rmdir", "mkdir", "link", "symlink", "copyfileobj", "sendfile", "copy_file_range", "flush", "__exit__", "posix_spawn"]
 )
 CALL_BUDGET = 3_000_000
-WALL_BUDGET_S = 120  # machinery guard only: an endless loop is deterministic, the alarm merely ends it
+CHANGE_BUDGET = 100  # changes of the (abstract) directory state in one run; the specification needs < 60 (11 attempts)
+WALL_BUDGET_S = 60  # machinery guard only: an endless loop is deterministic, the alarm merely ends it
 # names of callables that cannot change the directory and are called in tight loops: their call sites are switched off after
 # the first call (sys.monitoring.DISABLE) to keep the observer cheap
 HOT = frozenset(["readline", "tell", "len", "append", "isinstance", "read", "read1", "readinto", "join", "encode", "decode", "startswith", "endswith", "get", "int", "min", "max", "ord", "chr", "decompress", "crc32", "unpack", "unpack_from", "pack", "getattr", "hasattr"])
@@ -568,6 +569,7 @@ class Observer:
         self.crash_at, self.kill = crash_at, kill
         self.events = []  # (abstract snapshot, number of requests made so far) before each observed call
         self.calls = 0
+        self.changes = 0
         self.fired = False
         self.active = False
 
@@ -607,6 +609,11 @@ class Observer:
         if code.co_filename == __file__:
             return None
         snap = snapshot(self.fx, self.d, self.fmt, self.tmp_sig)
+        if self.events and core(self.events[-1][0]) != core(snap):
+            self.changes += 1
+            if self.changes > CHANGE_BUDGET:
+                self.active = False
+                raise Hang()
         self.events.append((snap, len(self.pool.served)))
         if self.crash_at is not None and len(self.events) == self.crash_at and not self.fired:
             self.fired = True
